@@ -160,7 +160,7 @@ class RowMachine(object):
                         k += 1
         self.meta = []
         if meta_events:
-            self.meta = [("meta", "# variable: Air temperature"), ("meta", "# units: deg C"), ("meta", "# x0: 0"), ("meta", "# x1: 10.5"),
+            self.meta = [("meta", "# variable: relative air humidity"), ("meta", "# units: in % units"), ("meta", "# x0: 0"), ("meta", "# x1: 10.5"),
                          ("meta", "# just a comment"), ("meta", "#")]
         self.dir = None
 
@@ -284,8 +284,9 @@ class RowMachine(object):
                 out.append((locus, d))
         # metadata
         metas = [e[1] for e in hist if e[0] == "meta"]
-        expv = "Air temperature" if "# variable: Air temperature" in metas else "Unknown variable"
-        expu = "deg C" if "# units: deg C" in metas else "Unknown units"
+        # both values begin with letters that also occur in their keyword (a prefix is removed, not a set of characters)
+        expv = "relative air humidity" if "# variable: relative air humidity" in metas else "Unknown variable"
+        expu = "in % units" if "# units: in % units" in metas else "Unknown units"
         expx0 = 0.0 if "# x0: 0" in metas else None
         expx1 = 10.5 if "# x1: 10.5" in metas else None
         got = (inp.variable.name, inp.variable.units, inp.variable.x0, inp.variable.x1)
